@@ -250,6 +250,7 @@ def run(ctx):
     _accessors_do_not_shadow_methods(ctx)
     _semantic_values_always_set(ctx)
     _folded_into_the_base_only_without_adjustment(ctx)
+    _signature_keys_keep_reference_constness(ctx)
 
 
 def _contains(tree, node):
@@ -839,3 +840,34 @@ def _folded_into_the_base_only_without_adjustment(ctx):
         ctx.ob("R05.11", "define_method|%s|sole-public-nonvirtual-base" % what.split(" because")[0].replace(" ", "-"), not missing, f.loc(y),
                "%s only for a sole, public, non-virtual base" % what if not missing else "%s without: %s" % (what, ", ".join(missing)))
     ctx.floor("R05.11", "places where define_method folds a member into the base class", len(sinks), 2)
+
+
+def _signature_keys_keep_reference_constness(ctx):
+    """R05.12: InterrogateFunction::_instances is keyed by TypeManager::get_function_signature(); two overloads with the same
+    key are ONE variant for the database - the second is dropped without a word and its comment lands on the first.
+    The key may identify `f(const T &)` with `f(T)` (C++ cannot tell the calls apart) but not `f(T &)` with them: the
+    parameter is replaced by unwrap_const_reference() - which strips ANY reference - only where is_const_ref_to_anything()
+    said it is a const one.  (Seed S9-C05: the guard removed as "any other type comes back unchanged".)"""
+    db = ctx.db
+    ctx.rule("R05.12", "in TypeManager::get_function_signature, unwrap_const_reference(p) is applied only behind is_const_ref_to_anything(p) for the same p")
+    fs = [g for g in db.functions if g.name == "TypeManager::get_function_signature"]
+    if not fs:
+        ctx.broken("R05.12: TypeManager::get_function_signature not found")
+        return
+    n = 0
+    for f in fs:
+        for c in f.walk():
+            if not (c.get("k") == "call" and callee_short(c) == "unwrap_const_reference" and c.get("a")):
+                continue
+            n += 1
+            r = local_ref(c["a"][0])
+            ok = False
+            if r is not None:
+                e = G.edges_where(f, lambda atom, truth, d=r["d"]: truth and (strip_casts(peel(atom)) or {}).get("k") == "call" and
+                                  callee_short(strip_casts(peel(atom))) == "is_const_ref_to_anything" and strip_casts(peel(atom)).get("a") and
+                                  (local_ref(strip_casts(peel(atom))["a"][0]) or {}).get("d") == d)
+                ok = bool(e) and G.gated(f, c, e)
+            ctx.ob("R05.12", "get_function_signature|unwrap_const_reference(%s)|only-const-references" % (r or {}).get("n", "?"), ok, f.loc(c),
+                   "only a const reference is replaced by its target in the signature key" if ok else
+                   "every reference is stripped from the key: f(T &) and f(const T &) become one variant")
+    ctx.floor("R05.12", "unwrap_const_reference in get_function_signature", n, 1)
